@@ -396,3 +396,288 @@ pub fn on_instr(frame_len: usize, max_stack_size: usize, abs_len: usize) {
         }
     });
 }
+
+// ---------------------------------------------------------------------------------------------
+// Controlled scheduling of lock acquisitions (used to explore the interleavings of OS threads)
+
+/// What a worker thread is about to do
+#[derive(Clone, Copy, Debug, PartialEq, Eq, Hash)]
+pub enum LockOp {
+    Lock,
+    Read,
+    Write,
+    /// A write to the incremental database which waits for every snapshot to be dropped
+    DbWrite,
+}
+
+/// Installed per OS thread by an explorer. Every acquisition of a lock of `sync` first reports to
+/// `before` (which returns once this thread has been chosen to run) and then TRIES to acquire the
+/// lock; a failed attempt is reported to `would_block` and the acquisition starts over, so a
+/// thread never blocks inside a lock while it is the only one allowed to run.
+pub trait Scheduler: Send + Sync {
+    fn before(&self, op: LockOp, type_name: &'static str, addr: usize);
+    fn would_block(&self, op: LockOp, type_name: &'static str, addr: usize);
+    fn acquired(&self, op: LockOp, type_name: &'static str, addr: usize);
+    /// A database snapshot was taken (+1) or dropped (-1) by this thread
+    fn snapshot(&self, delta: i32);
+    /// May this thread write to the database now (no other thread holds a snapshot)?
+    fn db_write_enabled(&self) -> bool;
+}
+
+thread_local! {
+    static SCHEDULER: RefCell<Option<std::sync::Arc<dyn Scheduler>>> = RefCell::new(None);
+}
+
+pub fn set_scheduler(s: Option<std::sync::Arc<dyn Scheduler>>) {
+    SCHEDULER.with(|c| *c.borrow_mut() = s);
+}
+
+pub fn scheduler() -> Option<std::sync::Arc<dyn Scheduler>> {
+    SCHEDULER.try_with(|c| c.borrow().clone()).unwrap_or(None)
+}
+
+pub fn snapshot_event(delta: i32) {
+    if let Some(s) = scheduler() {
+        s.snapshot(delta);
+    }
+}
+
+/// Called before a write to the incremental database
+pub fn db_write_point(addr: usize) {
+    if let Some(s) = scheduler() {
+        loop {
+            s.before(LockOp::DbWrite, "salsa", addr);
+            if s.db_write_enabled() {
+                s.acquired(LockOp::DbWrite, "salsa", addr);
+                return;
+            }
+            s.would_block(LockOp::DbWrite, "salsa", addr);
+        }
+    }
+}
+
+/// `std::sync::{Mutex, RwLock}` with scheduling points. The guards are the ones of `std`.
+pub mod sync {
+    use super::{scheduler, LockOp};
+    use std::fmt;
+    use std::sync::{
+        LockResult, MutexGuard, RwLockReadGuard, RwLockWriteGuard, TryLockError, TryLockResult,
+    };
+
+    #[derive(Default)]
+    pub struct Mutex<T: ?Sized>(std::sync::Mutex<T>);
+
+    impl<T> Mutex<T> {
+        pub fn new(t: T) -> Mutex<T> {
+            Mutex(std::sync::Mutex::new(t))
+        }
+        pub fn into_inner(self) -> LockResult<T> {
+            self.0.into_inner()
+        }
+    }
+
+    impl<T> From<T> for Mutex<T> {
+        fn from(t: T) -> Self {
+            Mutex::new(t)
+        }
+    }
+
+    impl<T: ?Sized> Mutex<T> {
+        pub fn lock(&self) -> LockResult<MutexGuard<'_, T>> {
+            match scheduler() {
+                None => self.0.lock(),
+                Some(s) => {
+                    let name = std::any::type_name::<T>();
+                    let addr = self as *const Self as *const () as usize;
+                    loop {
+                        s.before(LockOp::Lock, name, addr);
+                        match self.0.try_lock() {
+                            Ok(guard) => {
+                                s.acquired(LockOp::Lock, name, addr);
+                                return Ok(guard);
+                            }
+                            Err(TryLockError::Poisoned(err)) => return Err(err),
+                            Err(TryLockError::WouldBlock) => s.would_block(LockOp::Lock, name, addr),
+                        }
+                    }
+                }
+            }
+        }
+        pub fn try_lock(&self) -> TryLockResult<MutexGuard<'_, T>> {
+            self.0.try_lock()
+        }
+        pub fn get_mut(&mut self) -> LockResult<&mut T> {
+            self.0.get_mut()
+        }
+        pub fn is_poisoned(&self) -> bool {
+            self.0.is_poisoned()
+        }
+    }
+
+    impl<T: ?Sized + fmt::Debug> fmt::Debug for Mutex<T> {
+        fn fmt(&self, f: &mut fmt::Formatter<'_>) -> fmt::Result {
+            self.0.fmt(f)
+        }
+    }
+
+    #[derive(Default)]
+    pub struct RwLock<T: ?Sized>(std::sync::RwLock<T>);
+
+    impl<T> RwLock<T> {
+        pub fn new(t: T) -> RwLock<T> {
+            RwLock(std::sync::RwLock::new(t))
+        }
+        pub fn into_inner(self) -> LockResult<T> {
+            self.0.into_inner()
+        }
+    }
+
+    impl<T> From<T> for RwLock<T> {
+        fn from(t: T) -> Self {
+            RwLock::new(t)
+        }
+    }
+
+    impl<T: ?Sized> RwLock<T> {
+        pub fn read(&self) -> LockResult<RwLockReadGuard<'_, T>> {
+            match scheduler() {
+                None => self.0.read(),
+                Some(s) => {
+                    let name = std::any::type_name::<T>();
+                    let addr = self as *const Self as *const () as usize;
+                    loop {
+                        s.before(LockOp::Read, name, addr);
+                        match self.0.try_read() {
+                            Ok(guard) => {
+                                s.acquired(LockOp::Read, name, addr);
+                                return Ok(guard);
+                            }
+                            Err(TryLockError::Poisoned(err)) => return Err(err),
+                            Err(TryLockError::WouldBlock) => s.would_block(LockOp::Read, name, addr),
+                        }
+                    }
+                }
+            }
+        }
+        pub fn write(&self) -> LockResult<RwLockWriteGuard<'_, T>> {
+            match scheduler() {
+                None => self.0.write(),
+                Some(s) => {
+                    let name = std::any::type_name::<T>();
+                    let addr = self as *const Self as *const () as usize;
+                    loop {
+                        s.before(LockOp::Write, name, addr);
+                        match self.0.try_write() {
+                            Ok(guard) => {
+                                s.acquired(LockOp::Write, name, addr);
+                                return Ok(guard);
+                            }
+                            Err(TryLockError::Poisoned(err)) => return Err(err),
+                            Err(TryLockError::WouldBlock) => s.would_block(LockOp::Write, name, addr),
+                        }
+                    }
+                }
+            }
+        }
+        pub fn try_read(&self) -> TryLockResult<RwLockReadGuard<'_, T>> {
+            self.0.try_read()
+        }
+        pub fn try_write(&self) -> TryLockResult<RwLockWriteGuard<'_, T>> {
+            self.0.try_write()
+        }
+        pub fn get_mut(&mut self) -> LockResult<&mut T> {
+            self.0.get_mut()
+        }
+    }
+
+    impl<T: ?Sized + fmt::Debug> fmt::Debug for RwLock<T> {
+        fn fmt(&self, f: &mut fmt::Formatter<'_>) -> fmt::Result {
+            self.0.fmt(f)
+        }
+    }
+}
+
+mod sync_impls {
+    use super::sync::{Mutex, RwLock};
+    use crate::gc::{Gc, Trace};
+
+    // Mirror the implementations for the locks of `std` in `gc.rs`
+    unsafe impl<T> Trace for Mutex<T>
+    where
+        T: Trace,
+    {
+        fn trace(&self, gc: &mut Gc) {
+            self.lock().unwrap_or_else(|err| err.into_inner()).trace(gc)
+        }
+    }
+
+    unsafe impl<T> Trace for RwLock<T>
+    where
+        T: Trace,
+    {
+        fn trace(&self, gc: &mut Gc) {
+            self.read().unwrap_or_else(|err| err.into_inner()).trace(gc)
+        }
+    }
+
+    #[cfg(feature = "serde_derive")]
+    mod serde_impls {
+        use super::{Mutex, RwLock};
+        use crate::serde::{
+            de::{DeserializeState, Deserializer},
+            ser::{SerializeState, Serializer},
+        };
+
+        impl<T, Seed: ?Sized> SerializeState<Seed> for Mutex<T>
+        where
+            T: SerializeState<Seed>,
+        {
+            fn serialize_state<S>(&self, serializer: S, seed: &Seed) -> Result<S::Ok, S::Error>
+            where
+                S: Serializer,
+            {
+                self.try_lock()
+                    .map_err(|_| <S::Error as crate::serde::ser::Error>::custom("lock is held"))?
+                    .serialize_state(serializer, seed)
+            }
+        }
+
+        impl<T, Seed: ?Sized> SerializeState<Seed> for RwLock<T>
+        where
+            T: SerializeState<Seed>,
+        {
+            fn serialize_state<S>(&self, serializer: S, seed: &Seed) -> Result<S::Ok, S::Error>
+            where
+                S: Serializer,
+            {
+                self.try_read()
+                    .map_err(|_| <S::Error as crate::serde::ser::Error>::custom("lock is held"))?
+                    .serialize_state(serializer, seed)
+            }
+        }
+
+        impl<'de, T, Seed: ?Sized> DeserializeState<'de, Seed> for Mutex<T>
+        where
+            T: DeserializeState<'de, Seed>,
+        {
+            fn deserialize_state<D>(seed: &mut Seed, deserializer: D) -> Result<Self, D::Error>
+            where
+                D: Deserializer<'de>,
+            {
+                T::deserialize_state(seed, deserializer).map(Mutex::new)
+            }
+        }
+
+        impl<'de, T, Seed: ?Sized> DeserializeState<'de, Seed> for RwLock<T>
+        where
+            T: DeserializeState<'de, Seed>,
+        {
+            fn deserialize_state<D>(seed: &mut Seed, deserializer: D) -> Result<Self, D::Error>
+            where
+                D: Deserializer<'de>,
+            {
+                T::deserialize_state(seed, deserializer).map(RwLock::new)
+            }
+        }
+    }
+}
